@@ -92,18 +92,31 @@ Theorem c20_dependencies_partial : forall names A tr,
 Proof. exact dependencies_listed_partial. Qed.
 Print Assumptions c20_dependencies_partial.
 
-(* witnesses: open_ticket without topic where the assets have a topic "General"; a group named by a literal name_match *)
-Theorem c20_dependencies_refuted :
-  exists names A tr, forallb valid_flow A = true /\ accepts names A tr = true /\
-    exists fid r f, In (fid, r) (assets_touched tr) /\ lookup_flow A fid = Some f /\ ~ In r (dependencies f).
-Proof. exact dependencies_listed_refuted. Qed.
-Print Assumptions c20_dependencies_refuted.
+(* witnesses, one per listed known class, each on the input of its known: line (flows w_* in proofs/InspectProofs.v);
+   dependency_gap k names f tr: f valid, tr accepted, tr carries a reference of kind k that is not in dependencies f
+   and that f names implicitly *)
+Theorem c20_dependencies_refuted_default_topic : exists names tr, dependency_gap KTopic names w_default_topic tr.
+Proof. exact gap_default_topic. Qed.
+Print Assumptions c20_dependencies_refuted_default_topic.
 
-Theorem c20_dependencies_refuted_by_name :
-  exists names A tr, forallb valid_flow A = true /\ accepts names A tr = true /\
-    exists fid r f, In (fid, r) (assets_touched tr) /\ lookup_flow A fid = Some f /\ ~ In r (dependencies f).
-Proof. exact dependencies_listed_refuted_by_name. Qed.
-Print Assumptions c20_dependencies_refuted_by_name.
+Theorem c20_dependencies_refuted_group_name_match :
+  no_open_ticket [w_group_name_match] = true /\ exists names tr, dependency_gap KGroup names w_group_name_match tr.
+Proof. exact gap_group_name_match. Qed.
+Print Assumptions c20_dependencies_refuted_group_name_match.
+
+Theorem c20_dependencies_refuted_label_name_match :
+  no_open_ticket [w_label_name_match] = true /\ exists names tr, dependency_gap KLabel names w_label_name_match tr.
+Proof. exact gap_label_name_match. Qed.
+Print Assumptions c20_dependencies_refuted_label_name_match.
+
+Theorem c20_dependencies_refuted_user_email_match : exists names tr, dependency_gap KUser names w_user_email_match tr.
+Proof. exact gap_user_email_match. Qed.
+Print Assumptions c20_dependencies_refuted_user_email_match.
+
+Theorem c20_dependencies_refuted_legacy_var :
+  no_open_ticket [w_legacy_var] = true /\ exists names tr, dependency_gap KGroup names w_legacy_var tr.
+Proof. exact gap_legacy_var. Qed.
+Print Assumptions c20_dependencies_refuted_legacy_var.
 
 (* ... the list has no duplicates and only references written in some node of the flow *)
 Theorem c20_dependencies_exact : forall f,
